@@ -592,6 +592,9 @@ func pluginExtra(t *tr) string {
 
 	// 2. convertFactoryOutParams
 	if fd := pluginFindDecl(p, "convertFactoryOutParams"); fd != nil {
+		if ps := fd.Type.Params.List; len(ps) > 0 && len(ps[len(ps)-1].Names) == 1 {
+			pluginOutName = ps[len(ps)-1].Names[0].Name
+		}
 		var appendCond, trimCond, trimBody, appended string
 		okCases := ""
 		for _, s := range fd.Body.List {
@@ -611,13 +614,13 @@ func pluginExtra(t *tr) string {
 				}
 			case *ast.IfStmt:
 				c := pluginSrc(p.Fset, v.Cond)
-				switch c {
-				case "len(out) < numOut":
+				switch pluginNorm(c) {
+				case "len(OUT) < numOut":
 					appendCond = c
 					if len(v.Body.List) == 1 {
 						appended = pluginSrc(p.Fset, v.Body.List[0])
 					}
-				case "numOut < len(out)":
+				case "numOut < len(OUT)":
 					trimCond = c
 					var parts []string
 					for _, bs := range v.Body.List {
@@ -627,12 +630,12 @@ func pluginExtra(t *tr) string {
 				}
 			}
 		}
-		b.WriteString("/-- regenerated from `convertFactoryOutParams` (structural reading): accepted numOut values, the branch that appends a\nnil error, the branch that drops the error result -/\n")
+		b.WriteString("/-- regenerated from `convertFactoryOutParams` (structural reading): accepted numOut values, the branch that appends a\nnil error, the branch that drops the error result (statement shapes, independent of variable names) -/\n")
 		fmt.Fprintf(&b, "def convertNumOutCases : String := %q\n", okCases)
-		fmt.Fprintf(&b, "def convertAppendCond : String := %q\n", appendCond)
-		fmt.Fprintf(&b, "def convertAppended : String := %q\n", appended)
-		fmt.Fprintf(&b, "def convertTrimCond : String := %q\n", trimCond)
-		fmt.Fprintf(&b, "def convertTrimBody : String := %q\n\n", trimBody)
+		fmt.Fprintf(&b, "def convertAppendCond : String := %q\n", pluginNorm(appendCond))
+		fmt.Fprintf(&b, "def convertAppended : String := %q\n", pluginNorm(appended))
+		fmt.Fprintf(&b, "def convertTrimCond : String := %q\n", pluginNorm(trimCond))
+		fmt.Fprintf(&b, "def convertTrimBody : String := %q\n\n", pluginNorm(trimBody))
 	} else {
 		t.errs = append(t.errs, "func convertFactoryOutParams not found")
 	}
@@ -823,6 +826,34 @@ func pluginExtra(t *tr) string {
 	}
 	sort.Strings(rows)
 	fmt.Fprintf(&b, "/-- regenerated from core/register: (helper, type of its `ptr`, the call it makes) -/\ndef registerHelpers : List (String × String × String) :=\n  [%s]\n", strings.Join(rows, ",\n   "))
+	return b.String()
+}
+
+// pluginNorm renames the result-slice parameter of convertFactoryOutParams to OUT, so that the reading does not depend
+// on its name.
+var pluginOutName = "out"
+
+func pluginNorm(s string) string {
+	var b strings.Builder
+	i := 0
+	isId := func(c byte) bool { return c == '_' || c >= '0' && c <= '9' || c >= 'a' && c <= 'z' || c >= 'A' && c <= 'Z' }
+	for i < len(s) {
+		if isId(s[i]) {
+			j := i
+			for j < len(s) && isId(s[j]) {
+				j++
+			}
+			if s[i:j] == pluginOutName {
+				b.WriteString("OUT")
+			} else {
+				b.WriteString(s[i:j])
+			}
+			i = j
+			continue
+		}
+		b.WriteByte(s[i])
+		i++
+	}
 	return b.String()
 }
 
